@@ -62,10 +62,11 @@ type mServer struct {
 	Vols []mVol            `json:"vols"`
 	Ecs  []mEc             `json:"ecs"`
 	// second heartbeat (hostile re-registration); empty when not used
-	Max0  map[string]uint32 `json:"max0,omitempty"`  // max counts of the first heartbeat
-	Vols0 []mVol            `json:"vols0,omitempty"` // volumes of the first heartbeat
-	Ecs0  []mEc             `json:"ecs0,omitempty"`  // ec shards of the first heartbeat
-	Redo  string            `json:"redo,omitempty"`  // which re-registration was applied
+	Max0   map[string]uint32 `json:"max0,omitempty"`    // max counts of the first heartbeat
+	Vols0  []mVol            `json:"vols0,omitempty"`   // volumes of the first heartbeat
+	Ecs0   []mEc             `json:"ecs0,omitempty"`    // ec shards of the first heartbeat
+	Redo   string            `json:"redo,omitempty"`    // which re-registration was applied
+	EcEdge string            `json:"ec_edge,omitempty"` // disk type (+"!") made an EC edge case: shards%10==0, one slot left
 }
 
 func (s *mServer) id() string { return fmt.Sprintf("%s:%d", s.Ip, s.Port) }
@@ -115,7 +116,8 @@ func genTopo(rng *rand.Rand, idx int) *mTopo {
 	reuseRackNames := rng.Intn(2) == 0
 	twoDisk := rng.Intn(3) // 0: hdd only, 1: mixed, 2: every server both
 	ecHeavy := rng.Intn(3) == 0
-	tight := rng.Intn(5) == 0 // most servers full
+	ecEdge := rng.Intn(3) == 0 // some servers: EC shards an exact multiple of 10 and exactly one slot left
+	tight := rng.Intn(5) == 0  // most servers full
 	redoShare := 0
 	if t.Mode == "heartbeat" && rng.Intn(4) == 0 {
 		redoShare = 2 + rng.Intn(3)
@@ -180,6 +182,41 @@ func genTopo(rng *rand.Rand, idx int) *mTopo {
 							want -= n
 						}
 					}
+				}
+				if ecEdge && rng.Intn(3) == 0 {
+					// 10, 20 or 30 shards on one disk type (spread over 1-3 EC volumes) and
+					// max = local volumes + shards/10 + 1: one slot is physically left, while
+					// the master's own formula (ec/10 + 1) counts none
+					disk := disks[rng.Intn(len(disks))]
+					var keep []mEc
+					for _, e := range s.Ecs {
+						if e.Disk != disk {
+							keep = append(keep, e)
+						}
+					}
+					s.Ecs = keep
+					total := 10 * (1 + rng.Intn(3))
+					for left := total; left > 0; {
+						n := 1 + rng.Intn(14)
+						if n > left {
+							n = left
+						}
+						var bits uint32
+						for _, p := range rng.Perm(14)[:n] {
+							bits |= 1 << uint(p)
+						}
+						s.Ecs = append(s.Ecs, mEc{Id: nextVid, Disk: disk, Bits: bits})
+						nextVid++
+						left -= n
+					}
+					local := 0
+					for _, v := range s.Vols {
+						if v.Disk == disk && !v.Remote {
+							local++
+						}
+					}
+					s.Max[disk] = uint32(local + total/10 + 1)
+					s.EcEdge = disk + "!"
 				}
 				if redoShare > 0 && rng.Intn(redoShare) == 0 {
 					genRedo(rng, s, &nextVid)
@@ -363,13 +400,13 @@ type pref struct {
 }
 
 type call struct {
-	Topo   *mTopo `json:"topo"`
-	Rp     string `json:"rp"`
-	Disk   string `json:"disk"`
-	Pref   pref   `json:"pref"`
-	Seed   int64  `json:"rand_seed"`
+	Topo   *mTopo   `json:"topo"`
+	Rp     string   `json:"rp"`
+	Disk   string   `json:"disk"`
+	Pref   pref     `json:"pref"`
+	Seed   int64    `json:"rand_seed"`
 	Result []string `json:"result,omitempty"`
-	Err    string `json:"err,omitempty"`
+	Err    string   `json:"err,omitempty"`
 }
 
 // legalSetExists: is there any placement the statement would accept?
@@ -502,6 +539,30 @@ func groupingOk(x, y, z int, servers []*mServer, p pref) string {
 type checker struct {
 	r  *lib.Run
 	vg *topology.VolumeGrowth
+	// what the master itself publishes as "Free" per server and disk type
+	// ((*topology.Disk).FreeSpace(), the value of its topology map / status page),
+	// read BEFORE the placement call that is being judged
+	published map[string]map[string]int64
+}
+
+// readPublished walks the real topology and records Disk.FreeSpace() of every
+// server's disk nodes (a server without a disk node of a type publishes nothing: 0).
+func readPublished(topo *topology.Topology) map[string]map[string]int64 {
+	pub := make(map[string]map[string]int64)
+	for _, dcN := range topo.Children() {
+		for _, rackN := range dcN.Children() {
+			for _, dnN := range rackN.Children() {
+				dn := dnN.(*topology.DataNode)
+				m := make(map[string]int64)
+				for _, dk := range dn.Children() {
+					d := dk.(*topology.Disk)
+					m[string(types.ToDiskType(string(d.Id())))] += d.FreeSpace()
+				}
+				pub[string(dn.Id())] = m
+			}
+		}
+	}
+	return pub
 }
 
 // accounting compares the master's own counters at the server with what was registered.
@@ -622,6 +683,36 @@ func (c *checker) judge(cl *call, topo *topology.Topology, byId map[string]*mSer
 			return
 		}
 	}
+	// consistency clause: a server that the master itself reports as having no free
+	// slot of that disk type must not receive the volume
+	for _, s := range ms {
+		pub, ok := c.published[s.id()][cl.Disk]
+		if !ok || pub >= 1 {
+			if ok {
+				r.Count("chosen_servers_checked_against_published_free", 1)
+			}
+			if !ok {
+				r.Count("chosen_servers_without_published_free(not_judged)", 1)
+			}
+			continue
+		}
+		shards := 0
+		for _, e := range s.Ecs {
+			if e.Disk == cl.Disk {
+				shards += popcount(e.Bits)
+			}
+		}
+		ecClass := "none"
+		switch {
+		case shards > 0 && shards%10 == 0:
+			ecClass = "multiple-of-10"
+		case shards > 0:
+			ecClass = "other"
+		}
+		r.Violation(sig("master-reports-no-free-slot", "ec_shards_on_server", ecClass, "build", cl.Topo.Mode),
+			map[string]interface{}{"call": cl, "server": s, "published_free": pub, "free_by_model": s.freeSlots(cl.Disk)})
+		return
+	}
 	if bad := groupingOk(x, y, z, ms, cl.Pref); bad != "" {
 		class := "wrong-grouping"
 		if bad != "grouping" {
@@ -698,6 +789,9 @@ func topoStats(r *lib.Run, t *mTopo) {
 		}
 		if len(s.Max) > 1 {
 			two = true
+		}
+		if s.EcEdge != "" {
+			r.Count("servers_with_ec_multiple_of_10_and_exactly_one_slot_left", 1)
 		}
 	}
 	r.Count("topologies", 1)
@@ -799,6 +893,7 @@ func (c *checker) growPath(rng *rand.Rand, n int) {
 			opt := &topology.VolumeGrowOption{ReplicaPlacement: rp, DiskType: types.ToDiskType(disk), Collection: "grown",
 				DataCenter: p.Dc, Rack: p.Rack, DataNode: p.Node, Ttl: needle.EMPTY_TTL}
 			before := topo.GetMaxVolumeId()
+			c.published = readPublished(topo)
 			rand.Seed(cl.Seed)
 			count, gerr := c.vg.GrowByCountAndType(grpc.WithInsecure(), 1, opt, topo)
 			after := topo.GetMaxVolumeId()
@@ -891,6 +986,7 @@ func main() {
 		for i := 0; i < 60 && r.Violations() == 0 && r.Counter("replay_known_hits") == 0; i++ {
 			cl.Result, cl.Err = nil, ""
 			topo, byId := build(cl.Topo)
+			c.published = readPublished(topo)
 			c.runCall(cl, topo, byId)
 			fmt.Printf("replay attempt %d: servers=%v err=%q\n", i, cl.Result, cl.Err)
 		}
@@ -912,6 +1008,7 @@ func main() {
 	for ti := 0; ti < nTopo; ti++ {
 		t := genTopo(rng, ti)
 		topo, byId := build(t)
+		c.published = readPublished(topo)
 		topoStats(r, t)
 		prefs := prefsFor(rng, t)
 		if ti < 3 {
